@@ -1,6 +1,7 @@
 package harness
 
 import (
+	"net/url"
 	"bufio"
 	"bytes"
 	"fmt"
@@ -223,9 +224,22 @@ func c36Run(e *Env, p *c36Plan) {
 		var r http.Request
 		if err := fasthttpadaptor.ConvertRequest(ctx, &r, true); err == nil {
 			b, _ := io.ReadAll(r.Body)
+			// the converted request may reference the RequestCtx's buffers, which are only
+			// valid inside the handler: keep a deep copy of what is compared later
+			cp := &http.Request{Method: strings.Clone(r.Method), RequestURI: strings.Clone(r.RequestURI), Proto: strings.Clone(r.Proto), Host: strings.Clone(r.Host), Header: http.Header{}}
+			if r.URL != nil {
+				if u, err := url.Parse(strings.Clone(r.URL.String())); err == nil {
+					cp.URL = u
+				}
+			}
+			for hk, hv := range r.Header {
+				for _, v := range hv {
+					cp.Header.Add(strings.Clone(hk), strings.Clone(v))
+				}
+			}
 			mu.Lock()
-			converted[id] = &r
-			convBody[id] = b
+			converted[id] = cp
+			convBody[id] = append([]byte(nil), b...)
 			mu.Unlock()
 		}
 		fasthttpadaptor.NewFastHTTPHandler(c36Handler(c, nil, nil))(ctx)
@@ -317,7 +331,7 @@ func c36Run(e *Env, p *c36Plan) {
 		mu.Lock()
 		cr, cb := converted[c.ID], convBody[c.ID]
 		mu.Unlock()
-		if cr != nil && refReq != nil && refReq.URL != nil {
+		if cr != nil && cr.URL != nil && refReq != nil && refReq.URL != nil {
 			e.Ob(1)
 			rb, _ := io.ReadAll(refReq.Body)
 			switch {
